@@ -129,6 +129,30 @@ def check_object(obj, case) -> Optional[C.Failing]:
     want = strip_canon(canon.canon(obj))
     try:
         s_full, s_str = sdk_docs(obj)
+        # (round 8) the mode of a rendering is the `stripped` attribute of the encoder class used for THIS call - also for encoder
+        # classes an application (or the HTTP adapter) derives from the SDK's, and whatever the process rendered before
+        from basyx.aas.adapter.json import AASToJsonEncoder, StrippedAASToJsonEncoder
+        from basyx.aas.adapter import http as _http
+
+        class AppFull(AASToJsonEncoder):
+            pass
+
+        class AppStripped(AASToJsonEncoder):
+            stripped = True
+
+        class AppFullAgain(StrippedAASToJsonEncoder):
+            stripped = False
+        derived = [("application subclass of the full encoder", AppFull, s_full), ("application subclass with stripped = True", AppStripped, s_str),
+                   ("application subclass of the stripped encoder with stripped = False", AppFullAgain, s_full),
+                   ("the HTTP adapter's result encoder", _http.ResultToJsonEncoder, s_full),
+                   ("the HTTP adapter's stripped result encoder", _http.StrippedResultToJsonEncoder, s_str)]
+        if sum(map(ord, s_full)) % 2:
+            derived.reverse()
+        for name, enc, expect in derived + [("the full encoder, again", AASToJsonEncoder, s_full), ("the stripped encoder, again", StrippedAASToJsonEncoder, s_str)]:
+            got_doc = json.dumps(obj, cls=enc)
+            if got_doc != expect:
+                return C.Failing(f"strip:json:derived-encoder:{enc.__name__}", f"{type(obj).__name__} rendered with {name} (stripped={enc.stripped}) differs from "
+                                 f"the {'stripped' if enc.stripped else 'full'} rendering of the SDK's own encoder", case, got_doc[:300], expect[:300])
         for (sd, failsafe), D in decoders().items():
             for se, doc in ((False, s_full), (True, s_str)):
                 o2 = json.loads(doc, cls=D)
